@@ -301,6 +301,9 @@ func buildVariants(g *genuine, v13 bool) []variant {
 		"handshake-hellorequest": rec(22, 906, []byte{0, 0, 0, 0, 0, 1, 0, 0, 0, 0, 0, 0}),
 		"one-byte":               {0x16},
 	}
+	// not a datagram at all: the server's socket reports ECONNREFUSED once (an ICMP port unreachable for the cookie
+	// request came back — what the host of a spoofed source address answers)
+	nonHello["socket-error-econnrefused"] = socketErrMarker
 	for _, name := range world.SortedKeys(nonHello) {
 		d := nonHello[name]
 		add("nothello-"+name, famNotHello, "", func(*genuine, []byte) second { return second{NotHello: true, Raw: [][]byte{d}} })
@@ -533,7 +536,20 @@ func (r *runner) visit(ev string) {
 
 // deliver hands one attacker datagram to the server and judges the reaction. completes is the body
 // of the ClientHello this datagram completes (nil if it is not the last fragment).
+var socketErrMarker = []byte("\x00verif-socket-error")
+
 func (r *runner) deliver(tag string, d []byte, elicit int, completes []byte, second bool) {
+	if bytes.Equal(d, socketErrMarker) {
+		r.w.PushReadErr(world.ServerAddr, world.ConnRefused())
+		em := r.newServerEmissions()
+		re := r.orc.observe(d, elicit, em)
+		r.log(tag, d, em)
+		if second {
+			r.react = append(r.react, re)
+		}
+		r.visit("socket-error")
+		return
+	}
 	if r.sendFault && second {
 		r.pr.S.PC.FailNextWrites(1, world.TempNetErr{})
 		defer r.pr.S.PC.FailNextWrites(0, nil)
